@@ -294,19 +294,31 @@ def _run_cat(ctx, case, st):
   tf, tfl = st["tf"], st["tfl"]
   rng = np.random.RandomState(case["seed"])
   nb, units = int(rng.randint(1, 7)), int(rng.choice([1, 2, 3]))
-  layer = tfl.layers.CategoricalCalibration(num_buckets=nb, units=units)
+  # default_input_value (None, -1, or a category index: "inputs equal to this value are mapped to the last bucket") and the
+  # input dtypes the layer accepts (integer types as they are, anything else is cast to int32)
+  dv = [None, -1, -1, int(rng.randint(0, nb))][int(rng.randint(4))]
+  xdt = [np.int32, np.int32, np.int64, np.float32, np.uint8][int(rng.randint(5))]
+  if xdt == np.uint8 and dv == -1:
+    xdt = np.int32
+  layer = tfl.layers.CategoricalCalibration(num_buckets=nb, units=units, default_input_value=dv)
   B = 6
-  x = rng.randint(0, nb, size=(B, units)).astype(np.int32)
+  xi = rng.randint(0, nb, size=(B, units))
+  if dv is not None:
+    xi[rng.rand(B, units) < .35] = dv
+  x = xi.astype(xdt)
+  ctx.cls("categorical:default=%s" % ("none" if dv is None else ("-1" if dv == -1 else "in-range")), "categorical:input=" + np.dtype(xdt).name)
   layer(tf.constant(x))
   layer.kernel.assign(rng.normal(size=(nb, units)).astype(np.float32))
   J, _ = _jac_kernel(tf, layer, x, units)
   J = J.reshape(B, units, nb, units)
   for b in range(B):
     for u in range(units):
+      cat = (nb - 1) if (dv is not None and xi[b, u] == dv) else int(xi[b, u])
       want = np.zeros((nb, units))
-      want[x[b, u], u] = 1.0
+      want[cat, u] = 1.0
       ctx.check("CategoricalCalibration/dkernel=onehot", bool(np.array_equal(J[b, u], want)),
-                "d out[%d,%d]/d kernel is not the one-hot of category %d" % (b, u, x[b, u]))
+                "d out[%d,%d]/d kernel is not the one-hot of category %d (input %s, default_input_value %s, input dtype %s)" % (
+                    b, u, cat, xi[b, u], dv, np.dtype(xdt).name))
   return True, core.digest([case, nb, units])
 
 
